@@ -912,7 +912,8 @@ def _holds_matrix_probed(ctx, inp, io):
         return msg
     if msg is None and inp["n"] * inp["m"] <= 64:
         _PROBE["n"] += 1
-        if _PROBE["n"] % 53 == 0:
+        if _PROBE["n"] % 53 == 0 and _PROBE.get("matrix_probes", 0) < 500:
+            _PROBE["matrix_probes"] = _PROBE.get("matrix_probes", 0) + 1
             alone = _fresh().run({"seq": [{"inp": inp}]}, base="match_matrix")
             if alone is not None:
                 ctx.tally("pristine-process probe: same answer in a fresh process")
@@ -1904,7 +1905,7 @@ def run(ctx):
     _CTX = ctx
     _CACHE.clear()
     del _DEFERRED[:]
-    _PROBE.update(n=0, explained=0, refined=0, confirmed=0)
+    _PROBE.update(n=0, explained=0, refined=0, confirmed=0, matrix_probes=0)
     nmax = ctx.budget(5, 7)
     stage = _timed(ctx)
     stage("certificate generator self-test", _cert_selftest, ctx)
